@@ -881,7 +881,7 @@ int main(int argc, char **argv)
 	if (line[0] != 'X' || sscanf(line, "X %ld %31s %31s %ld", &xid, tp, scen, &seed) < 3)
 	    continue;
 	rng = 88172645463325252UL ^ ((unsigned long)seed * 2654435761UL);
-	alarm(60);
+	alarm(25);
 	run();
 	fflush(out);
     }
